@@ -98,7 +98,7 @@ def make_jobs(ctx):
                         flags=["--unwind", "12", "--unwinding-assertions"] + NOUB, replay=rp,
                         info=dict(layer="RD", note="every field padded to a symbolic length 1..5 (1..10 for i64), symbolic value; one trailing byte must remain")))
     from ..eexpr import expr_jobs
-    jobs += expr_jobs(ctx, ["local_get", "local_get_invalid"])
+    jobs += expr_jobs(ctx, ["local_get", "local_get_invalid", "dispatch"])      # dispatch: padded sub-opcodes of prefixed instructions
     j = Job("B.reencoding", src=None, solver="static", funcs=["w2c2 binary: reader.c + c.c end to end"],
             bounded="one module, %d spec-equivalent encodings (padding of sizes/counts/immediates, custom sections at every boundary, flag 0 vs flag 2)" % (13 if ctx.tier == "quick" else 49),
             info=dict(layer="bounded corroboration on the real binary (not the deciding step)"))
